@@ -194,10 +194,15 @@ def run_one(world, atoms, goal_names, routine, strategy, mixin, prestate):
     case = Case(world, atoms, prestate)
     goals = []
     for gn in goal_names:
+        if routine == "maxsmt-extend":
+            continue
         if gn == "max j*":
             goals.append(MaximizationGoal(world.j))
         else:
             goals.append(world.goal(gn))
+    if routine == "maxsmt-extend":
+        # (only to collect the symbols: the goal actually optimised is built step by step below)
+        goals = [world._maxsmt([(world.p, 1), (m.Not(world.p), 3), (world.q, 2)], goal_names[0].endswith("real"))]
     fs = case.assertions(goals)
     extra = m.Or(world.p, m.Not(world.p))      # a harmless user assertion inside the user push
     try:
@@ -259,6 +264,36 @@ def run_one(world, atoms, goal_names, routine, strategy, mixin, prestate):
                 if g.is_maxsmt_goal():
                     cost_num = cost
                 bad = check_model(model, g, cost, best(g, models), "optimize")
+        elif routine == "maxsmt-extend":
+            # a MaxSMT goal is optimised, extended with further soft clauses (weights given as Python
+            # numbers and as constants) and optimised again
+            real = goal_names[0].endswith("real")
+            g = MaxSMTGoal(real_weights=real)
+            g.add_soft_clause(world.p, m.Real(1) if real else m.Int(1))
+            r1 = opt.optimize(g, strategy=strategy)
+            stages = [("first", list(g.soft))]
+            g.add_soft_clause(m.Not(world.p), 3)
+            r2 = opt.optimize(g, strategy=strategy)
+            g.add_soft_clause(world.q, m.Real(2) if real else m.Int(2))
+            r3 = opt.optimize(g, strategy=strategy)
+            goals = [g]
+            if unsat:
+                if r1 is not None or r2 is not None or r3 is not None:
+                    bad = ("nosolution", "maxsmt-extend: returned a solution for unsatisfiable assertions")
+            elif r3 is None or r2 is None or r1 is None:
+                bad = ("nosolution", "maxsmt-extend: reported no solution for satisfiable assertions")
+            else:
+                # r2 must be optimal for the two-clause goal, r3 for the three-clause goal
+                def opt_for(k):
+                    h = MaxSMTGoal(real_weights=real)
+                    for c, wt in g.soft[:k]:
+                        h.add_soft_clause(c, wt)
+                    return best(h, models), h
+                for k, r in ((2, r2), (3, r3)):
+                    want, h = opt_for(k)
+                    bad = check_model(r[0], h, r[1], want, "maxsmt-extend stage %d" % k)
+                    if bad:
+                        break
         elif routine == "boxed":
             r = opt.boxed_optimize(goals, strategy=strategy)
             if unsat:
@@ -354,6 +389,8 @@ def systems(world, max_atoms):
 
 
 def goal_class(gn):
+    if gn in ("maxsmt int", "maxsmt real"):
+        return gn.replace(" ", "-")
     if gn.startswith("maxsmt"):
         return "maxsmt-" + gn.split()[-1] + ("-bv" if "x<y" in gn else "")
     if "minmax" in gn or "maxmin" in gn:
@@ -375,6 +412,7 @@ def run_shard(args):
             if si % nsys != sysidx:
                 continue
             for routine, goalsets in (("optimize", [(g,) for g in GOALS_SINGLE]),
+                                      ("maxsmt-extend", [("maxsmt int",), ("maxsmt real",)]),
                                       ("boxed", GOAL_PAIRS[:3] if quick else GOAL_PAIRS),
                                       ("lexicographic", GOAL_PAIRS + [(b, a) for a, b in GOAL_PAIRS if "*" not in b]),
                                       ("pareto", GOAL_PAIRS[:4] if quick else GOAL_PAIRS)):
